@@ -449,6 +449,9 @@ func (s *sched) step() bool {
 		}
 	}
 	clockOK := s.pendingTimers() && (s.cfg.MaxClockFirings == 0 || s.firings < s.cfg.MaxClockFirings)
+	if s.mainDone && s.cfg.MaxClockFirings == 0 {
+		clockOK = false // nobody is waiting for time to pass any more: periodic timers must not keep the execution alive
+	}
 	if len(alts) == 0 {
 		if clockOK {
 			alts = append(alts, Alt{Gid: -1})
